@@ -233,6 +233,17 @@ func (g *gen) c13Base() []Op {
 			base = append(base, Step{A: "poison"})
 		}
 	}
+	if g.chance(0.2) {
+		// an unsafe write of nothing somewhere: it opens an envelope that
+		// holds nothing (a trailing open marker, which finalisation removes
+		// by reslicing rather than by adding a closing marker)
+		at := g.r.Intn(len(base) + 1)
+		if manual {
+			base = insertStep(base, at, Step{A: "mw", I: 0, S: ""})
+		} else {
+			base = insertStep(base, at, Step{A: "us", S: ""})
+		}
+	}
 	if g.chance(0.12) {
 		// start from one of the degenerate states: a buffer that is empty
 		// while an envelope is open (its whole content was a closing marker,
